@@ -383,3 +383,39 @@ Theorem C01_gen_reconcile_lca_eq :
 Proof. exact @gen_reconcile_lca_eq. Qed.
 Print Assumptions C01_gen_reconcile_lca_eq.
 
+
+(* ---- closing corollaries added after the independent review (DESIGN 10.3): the lemmas are in Proofs/ReviewC*.v ---- *)
+
+From SR Require Import Proofs.ReviewCThlAny. Import ReviewCThlAny.PartCthl.
+
+Theorem C01_gen_reconcile_thl_any :
+  forall (lca node_id : Type) (nid_eqb : node_id -> node_id -> bool) 
+         (S : stree) (c : costs) (leafsp : node_id -> path) (syn : node_id -> list fam)
+         (missing : node_id -> path) (ord : list (T.MappingInfo path) -> list (T.MappingInfo path))
+         (O : EV.TreeNode node_id) (lcaobj : lca)
+         (oeqb : T.tout_state path lca node_id -> T.tout_state path lca node_id -> bool),
+       (forall a b : node_id, reflect (a = b) (nid_eqb a b)) ->
+       nn (c_hgt c) ->
+       (forall l : list (T.MappingInfo path), sameset (ord l) l) ->
+       NoDup (map EV.TreeNode_id (T.TreeNode_postorder O)) ->
+       (forall a b : T.tout_state path lca node_id,
+        rtree_eqb (rt_out nid_eqb missing O a) (rt_out nid_eqb missing O b) = oeqb a b) ->
+       0 <= c_floss c ->
+       c_spe c <= c_dup c + 2 * c_floss c ->
+       leaves_ok S (EvalGenProofs.otree_of leafsp syn O) ->
+       exists o : T.tout_state path lca node_id,
+         T.gen_reconcile_thl path_eqb nid_eqb (fun _ : lca => anc) (fun _ : lca => sanc)
+           (fun _ : lca => comparable) (fun _ : lca => lcp) (fun _ : lca => dist)
+           (fun _ : lca => sembed S []) oeqb missing ord
+           {|
+             EV.rin_object_tree := O;
+             EV.rin_species_lca := lcaobj;
+             EV.rin_leaf_object_species := leafsp;
+             EV.rin_costs := EvalGenProofs.stsocc c
+           |} (EntryGenProofs.prc RANY) = T.Ok [o] /\
+         In (rt_out nid_eqb missing O o)
+           (tags (reconcile_thl S c RALL (EvalGenProofs.otree_of leafsp syn O))) /\
+         optimal S c (EvalGenProofs.otree_of leafsp syn O) (rt_out nid_eqb missing O o).
+Proof. exact @gen_reconcile_thl_any. Qed.
+Print Assumptions C01_gen_reconcile_thl_any.
+
